@@ -1405,10 +1405,14 @@ async fn run_case(ctx: &Ctx<'_>, rng: &mut Rng, selftest: bool) {
             });
             let kind = if v.kind.starts_with("cell-differs") && v.kind.ends_with("list-length") || v.kind == "row-count" {
                 "list-structure-differs".to_string()
+            } else if v.kind.starts_with("read-error-") && v.what.contains("Invalid range") && v.what.contains("for object of size") {
+                "read-beyond-end-of-file".to_string()
             } else if v.kind.starts_with("read-error-encountered-internal-error") {
                 // class of the internal error by its message
                 if v.what.contains("Max offset of") {
                     "list-offsets-exceed-values".to_string()
+                } else if v.what.contains("Invalid range") && v.what.contains("for object of size") {
+                    "read-beyond-end-of-file".to_string()
                 } else if v.what.contains("bits_per_value must be greater than") {
                     "bits-per-value-zero".to_string()
                 } else {
@@ -1459,6 +1463,10 @@ async fn run_case(ctx: &Ctx<'_>, rng: &mut Rng, selftest: bool) {
                 format!("{}-{}", kind, version_group(cur.version))
             } else if on_blob {
                 format!("{}-{}-blob", kind, version_group(cur.version))
+            } else if kind == "list-offsets-exceed-values" || kind == "list-item-value-differs" || kind == "read-beyond-end-of-file" {
+                // families that are not root-caused: classed by the kind of leaf only (the trigger
+                // conditions vary: small pages, absent validity buffers, a page of empty lists in front)
+                format!("{}-{}-{leaf}", kind, version_group(cur.version))
             } else if no_leaf {
                 format!("{}-{}-{cond}", kind, version_group(cur.version))
             } else {
